@@ -18,7 +18,7 @@ from docutils.parsers.rst.states import Body, Inliner, RSTStateMachine
 from docutils.statemachine import StringList
 from docutils.utils import unescape
 
-from .parsers.directives import MarkupError, parse_directive_text
+from .parsers.directives import MarkupError, parse_directive_text, split_lines
 
 if TYPE_CHECKING:
     from .mdit_to_docutils.base import DocutilsRenderer
@@ -437,7 +437,7 @@ class MockIncludeDirective:
         # get required section of text
         startline = self.options.get("start-line", None)
         endline = self.options.get("end-line", None)
-        file_content = "\n".join(file_content.splitlines()[startline:endline])
+        file_content = "\n".join(split_lines(file_content)[startline:endline])
         startline = startline or 0
         for split_on_type in ["start-after", "end-before"]:
             split_on = self.options.get(split_on_type, None)
